@@ -19,6 +19,16 @@ def gen_scenario(rng, P=None):
       main += [["start"], ["settle"], ["alive"]]
     main += [["pub", other, 1], ["settle"], ["stop"], ["settle"], ["alive"], ["start"], ["alive"]]
     return {"nq": 2, "main": main, "pub2": [], "equal_queues": rng.random() < 0.5, "pre_start": False}
+  if P.get("bad") and rng.random() < 0.12:
+    # fault injection (C13): the process is out of threads for a moment, so that start() fails after none or one of the two delivery
+    # threads has been started; the next start() must complete the pair and never add a second thread of a kind
+    sig = rng.choice(SIGS)
+    main = [["start"], ["stop"], ["settle"]] if rng.random() < 0.4 else []
+    main += [["sub", 0, sig, "fifo"], ["sub", 1, sig, "lifo"], ["start_fault", rng.choice([1, 2, 2])], ["alive"]]
+    if rng.random() < 0.3:
+      main += [["start_fault", rng.choice([1, 2])], ["alive"]]
+    main += [["start"], ["settle"], ["alive"], ["pub", sig, 1], ["settle"], ["stop"], ["settle"], ["alive"], ["start"], ["alive"]]
+    return {"nq": 2, "main": main, "pub2": [], "equal_queues": rng.random() < 0.5, "pre_start": False}
   if P.get("resub") and rng.random() < P["resub"]:
     # a queue subscribes AGAIN while publications of that signal are being delivered to it and to the queues registered after it
     sig, kind = rng.choice(SIGS), rng.choice(["fifo", "lifo"])
@@ -94,7 +104,7 @@ class FabRun:
       elif k == "settle":
         sc, mevt = self.sched, self.sched.me()
         sc.point("settle", "", (), enabled=lambda: all(
-          vt is mevt or vt.state == "done" or vt.pending[0] == "settle" or not vt.is_enabled() for vt in sc.threads))
+          vt is mevt or vt.state == "done" or vt.pending[0] == "settle" or (not vt.is_enabled() and not getattr(vt, "stalled", False)) for vt in sc.threads))
       elif k == "badsub":
         af.subscribe(self.badq, Event(signal=op[1]), queue_type=op[2])
         self.poisoned.add(op[2])
@@ -109,6 +119,20 @@ class FabRun:
         self.emit(["call", "start", "", ""])
         af.start()
         self.emit(["ret", "start", "", ""])
+      elif k == "start_fault":
+        # start() while the process is (for a moment) out of threads: the op[1]-th attempt to start a thread fails.  start() may then
+        # raise; whatever it did start is still the fabric's, and a later start() must not add a second thread of a kind
+        self.emit(["call", "start", "", ""])
+        self.sched.fail_thread_start = op[1]
+        try:
+          af.start()
+          self.emit(["ret", "start", "", ""])
+        except RuntimeError as ex:
+          if "can't start new thread" not in str(ex):
+            raise
+          self.emit(["ret", "startraised", "", ""])
+        finally:
+          self.sched.fail_thread_start = 0
       elif k == "stop":
         self.emit(["call", "stop", "", ""])
         af.stop()
